@@ -249,6 +249,29 @@ def _cli_discipline(ctx, fx):
                         broken.append(Broken("correspondence", "c01.cli", f"{name} [{kind}] {flags}: {why}",
                                              case={"kind": "cli", "name": os.path.basename(name), "flags": flags, "data_b64": base64.b64encode(b).decode()}))
                 os.unlink(p)
+        # generated inputs whose serialisation fails late: XLSX with a duration / time / date cell
+        try:
+            import datetime
+            import openpyxl
+            wb = openpyxl.Workbook()
+            ws = wb.active
+            ws.append(["name", "duration", "when"])
+            ws.append(["a", datetime.timedelta(hours=1, minutes=2), datetime.datetime(2024, 1, 2, 3, 4, 5)])
+            ws.append(["b", datetime.time(1, 2, 3), datetime.date(2024, 1, 2)])
+            p = os.path.join(td, "typed_cells.xlsx")
+            wb.save(p)
+            with open(p, "rb") as fh:
+                b = fh.read()
+            for flags in ([], ["--json"], ["--json-unit"], ["--json", "--binary"]):
+                rc, out, err = _cli_once([p, *flags])
+                ok, why = _cli_ok(rc, out, err)
+                ctx.case(("cli", "typed_cells.xlsx", tuple(flags)))
+                ctx.count(f"cli/generated/rc={rc}")
+                if not ok:
+                    broken.append(Broken("correspondence", "c01.cli", f"typed_cells.xlsx {flags}: {why}",
+                                         case={"kind": "cli", "name": "typed_cells.xlsx", "flags": flags, "data_b64": base64.b64encode(b).decode()}))
+        except ImportError:
+            pass
         # nonexistent file and directory
         for argv in ([os.path.join(td, "missing.docx")], [td]):
             rc, out, err = _cli_once(argv)
